@@ -14,6 +14,7 @@ import (
 
 	"github.com/ARM-software/golang-utils/utils/filesystem"
 
+	"syscall"
 	"verifharness/internal/fsgate"
 	"verifharness/internal/hk"
 	"verifharness/internal/sandbox"
@@ -44,6 +45,7 @@ type scenario struct {
 	After     [][]string `json:"after"`
 	Removed   [][]string `json:"removed"`
 	Protected [][]string `json:"protected"`
+	Fault     []string   `json:"fault"` // a nested entry whose removal the backend refuses ([] = none)
 }
 
 type event struct {
@@ -52,6 +54,7 @@ type event struct {
 	Backend        string   `json:"backend"`
 	Target         string   `json:"target"`
 	Err            string   `json:"err"`
+	Fault          string   `json:"fault"` // the nested entry whose removal was refused ("" = none)
 	OutsideChanged []string `json:"outsideChanged"`
 	Remaining      []string `json:"remaining"`
 	After          []string `json:"after"`
@@ -76,6 +79,45 @@ func newFs(backend, scratch string) (base afero.Fs, root string, cleanup func(),
 	return afero.NewMemMapFs(), "/sbx", func() {}, nil
 }
 
+// failFs refuses (EACCES) to remove one path; everything else goes to the backend untouched.
+type failFs struct {
+	afero.Fs
+	path string
+}
+
+func (f *failFs) refused(name string) bool { return f.path != "" && filepath.Clean(name) == f.path }
+func (f *failFs) Remove(name string) error {
+	if f.refused(name) {
+		return &os.PathError{Op: "remove", Path: name, Err: syscall.EACCES}
+	}
+	return f.Fs.Remove(name)
+}
+func (f *failFs) RemoveAll(name string) error {
+	if f.refused(name) {
+		return &os.PathError{Op: "removeall", Path: name, Err: syscall.EACCES}
+	}
+	return f.Fs.RemoveAll(name)
+}
+func (f *failFs) LstatIfPossible(name string) (os.FileInfo, bool, error) {
+	if l, ok := f.Fs.(afero.Lstater); ok {
+		return l.LstatIfPossible(name)
+	}
+	fi, err := f.Fs.Stat(name)
+	return fi, false, err
+}
+func (f *failFs) ReadlinkIfPossible(name string) (string, error) {
+	if l, ok := f.Fs.(afero.LinkReader); ok {
+		return l.ReadlinkIfPossible(name)
+	}
+	return "", &os.PathError{Op: "readlink", Path: name, Err: afero.ErrNoReadlink}
+}
+func (f *failFs) SymlinkIfPossible(oldname, newname string) error {
+	if l, ok := f.Fs.(afero.Linker); ok {
+		return l.SymlinkIfPossible(oldname, newname)
+	}
+	return &os.LinkError{Op: "symlink", Old: oldname, New: newname, Err: afero.ErrNoSymlink}
+}
+
 func vfsOver(base afero.Fs, backend string, gate *fsgate.Gate) filesystem.FS {
 	t := filesystem.InMemoryFS
 	if backend == "os" {
@@ -93,6 +135,8 @@ func runOp(fs filesystem.FS, op, tdir, link, pattern string) string {
 			ch <- fs.Rm(tdir)
 		case "RmLink":
 			ch <- fs.Rm(link)
+		case "RmLinkTrailing":
+			ch <- fs.Rm(link + string(filepath.Separator))
 		case "CleanDir":
 			ch <- fs.CleanDir(tdir)
 		case "GarbageCollect":
@@ -164,7 +208,12 @@ func replayOne(sc *scenario, backend, scratch string) (event, error) {
 		}
 	}
 	gate := fsgate.NewGate(nil, "")
-	fs := vfsOver(base, backend, gate)
+	under := base
+	if len(sc.Fault) > 0 {
+		under = &failFs{Fs: base, path: filepath.Join(root, filepath.FromSlash(conc(sc.Fault)))}
+		ev.Fault = conc(sc.Fault)
+	}
+	fs := vfsOver(under, backend, gate)
 	pattern := ""
 	if sc.Pattern != "" {
 		pattern = names[sc.Pattern]
